@@ -2,7 +2,7 @@
    Only statements, `exact`, and Print Assumptions live here. *)
 From Coq Require Import List NArith Bool Arith.
 Import ListNotations.
-From Verif Require Import Facts_vm FramesM Frames_proofs Frames_lifo.
+From Verif Require Import Facts_vm FramesM FramesCodec Frames_proofs Frames_lifo Frames_sim Frames_term.
 
 (* Full statement: on every action tree (calls, defers of interpreted and
    native functions, native functions that call back a Scriggo function value,
@@ -15,6 +15,76 @@ From Verif Require Import Facts_vm FramesM Frames_proofs Frames_lifo.
 Definition C12_statement : Prop :=
   forall (f : func) (n m : nat) r1 r2,
     vm_run n f = Some r1 -> go_run m f = Some r2 -> r1 = r2.
+
+(* Proved for every tree the emitter can produce.  tree_ok f (a boolean,
+   Frames_sim.ok_fn) excludes only: `recover down` (OpRecover with a > 0)
+   anywhere else than as the whole body of a deferred function - the emitter
+   produces it only for `defer recover()` -; a panicking instruction (OpPanic, a
+   native function that panics) without an entry in the debug table of its
+   function - the emitter records the position of every Panic and CallNative
+   instruction.  Everything else is inside: calls and deferred calls of
+   functions and of native functions to any depth, native functions that panic,
+   call env.Stop or env.Fatal (deferred ones too), native functions that call
+   back a function value (nested VMs), panics inside deferred calls, recover()
+   at any place, `defer recover()`, explicit returns. *)
+Definition C12_statement_partial : Prop :=
+  forall f : func, tree_ok f = true ->
+  forall (n m : nat) r1 r2, vm_run n f = Some r1 -> go_run m f = Some r2 -> r1 = r2.
+
+Theorem C12_partial_holds : C12_statement_partial.
+Proof. exact frames_refine_go. Qed.
+Print Assumptions C12_partial_holds.
+
+(* Termination, on every tree (no hypothesis): the machine never runs out of a
+   fuel of vm_bound f = 8 * fsize f steps (fsize f = 1 + the number of
+   instructions of the tree); GoSpec never runs out of a fuel of fsize f. *)
+Theorem C12_vm_terminates :
+  forall (f : func) (n : nat), vm_bound f <= n -> vm_run n f <> None.
+Proof. exact vm_terminates. Qed.
+Print Assumptions C12_vm_terminates.
+
+Theorem C12_vm_bound_is : forall f, vm_bound f = 8 * fsize f.
+Proof. reflexivity. Qed.
+
+Theorem C12_go_total : forall (f : func) (m : nat), fsize f <= m -> go_run m f <> None.
+Proof. exact go_run_total. Qed.
+
+(* the fuel the extracted model is given by the correspondence is enough *)
+Theorem C12_model_fuel_enough : forall f, vm_run (vm_fuel f) f <> None.
+Proof. exact frames_case_fuel. Qed.
+
+(* the two together: on every tree of the theorem both end, with the same result *)
+Theorem C12_total :
+  forall f : func, tree_ok f = true ->
+  exists r, go_run (fsize f) f = Some r /\ forall n, vm_bound f <= n -> vm_run n f = Some r.
+Proof.
+  intros f Hok.
+  destruct (go_run (fsize f) f) as [r|] eqn:Hgo; [|exfalso; exact (go_run_total f (fsize f) (le_n _) Hgo)].
+  exists r. split; [reflexivity|]. intros n Hn.
+  destruct (vm_run n f) as [r1|] eqn:Hvm; [|exfalso; exact (vm_terminates f n Hn Hvm)].
+  f_equal. exact (frames_refine_go f Hok n (fsize f) r1 r Hvm Hgo).
+Qed.
+Print Assumptions C12_total.
+
+(* The trees tree_ok excludes are not programs: on them the model of the
+   machine and GoSpec can differ, which says nothing about the code (they are
+   why the statement over the whole tree type stays unproved).  A function
+   whose body is `recover down` called as an ordinary function from a
+   deferred call run by the panic sequence; a panic without debug line
+   followed by an instruction that has one (newPanic then takes the line of
+   the following instruction). *)
+Definition w_excluded_recover_down : func :=
+  mkfunc [IDeferFn [ICall [IRecover true] []] []; IPanic 1] [(1, 2%N)].
+Definition w_excluded_no_line : func := mkfunc [IPanic 1; INat (NBody 2)] [(1, 5%N)].
+
+Theorem C12_excluded_trees :
+  (tree_ok w_excluded_recover_down = false /\
+   vm_run 60 w_excluded_recover_down = Some (ONil, []) /\
+   go_run 60 w_excluded_recover_down = Some (OPanic [(1%N, false, Some 2%N)], [])) /\
+  (tree_ok w_excluded_no_line = false /\
+   vm_run 60 w_excluded_no_line = Some (OPanic [(1%N, false, Some 5%N)], []) /\
+   go_run 60 w_excluded_no_line = Some (OPanic [(1%N, false, None)], [])).
+Proof. vm_compute. repeat split; reflexivity. Qed.
 
 (* The full statement was false of the code: four independent witnesses, each
    a recorded finding, now repaired (the trees are kept, with the positive
